@@ -679,7 +679,7 @@ func (r *Report) Finish() int {
 	sort.Slice(r.violations, func(i, j int) bool { return r.violations[i].Key < r.violations[j].Key })
 	replayDir := filepath.Join(r.Root, "replays", r.Property)
 	os.RemoveAll(replayDir)
-	nviol := 0
+	nviol, nknown := 0, 0
 	var lines []string
 	seenKey := map[string]bool{}
 	for i, v := range r.violations {
@@ -689,6 +689,7 @@ func (r *Report) Finish() int {
 		seenKey[v.Key] = true
 		if what, ok := known[v.Key]; ok {
 			v.Known = true
+			nknown++
 			lines = append(lines, fmt.Sprintf("KNOWN-FINDING: property=%s key=%s %s", r.Property, v.Key, what))
 			continue
 		}
@@ -785,7 +786,7 @@ func (r *Report) Finish() int {
 		fmt.Println(l)
 	}
 	fmt.Printf("%s %s: evaluations=%d distinct=%d states=%d transitions=%d exhaustive=%v violations=%d known=%d wall=%.1fs\n",
-		r.Property, r.Tier, evals, dist, states, trans, exhaustive, nviol, len(r.violations)-nviol, time.Since(r.start).Seconds())
+		r.Property, r.Tier, evals, dist, states, trans, exhaustive, nviol, nknown, time.Since(r.start).Seconds())
 	if nviol > 0 {
 		return 1
 	}
